@@ -10,6 +10,7 @@ def check(tier, seed, only=None, variants=("mh_sha1", "mh_sha256"), pid="C05"):
     try:
         for v in variants:
             jobs += mh.build(v, os.path.join(runner.scratch(), v))
+            jobs.append(mh.init_job(v, os.path.join(runner.scratch(), v + "_init")))
     except overlay.OverlayError as e:
         raise evidence.Undecided("extraction broke: %s" % e)
     if pid == "C10":
@@ -21,7 +22,7 @@ def check(tier, seed, only=None, variants=("mh_sha1", "mh_sha256"), pid="C05"):
     if tier == "quick":
         # every instantiation #includes the SAME template text: quick proves the stand-alone (base) and the
         # avx2 instantiation, thorough all five
-        keep = ("/base/", "/avx2/", "murmur/")
+        keep = ("/base/", "/avx2/", "murmur/", "/init")
         for j in jobs:
             if not any(k in j.name for k in keep):
                 rep.transferred.append({"function": j.name, "proved_instance": j.name.rsplit("/", 2)[0] + "/avx2/...",
